@@ -1,6 +1,6 @@
 """Shared discovery for the weight-accounting rules (C01, C05, C06, C16): the total-weight lock's write
 sites and their classification, the space query, space atoms, admitting functions."""
-from core import (strip_site, subexprs, root_calls, bool_branches, variant_edges, lock_call, dashmap_call,
+from core import (subst_params, strip_site, subexprs, root_calls, bool_branches, variant_edges, lock_call, dashmap_call,
                   is_call_to, fmt, mentions, const_of)
 
 
@@ -210,22 +210,6 @@ def classify_write(rv, guard_call):
     if rv[0] == "const" and rv[1] == 0:
         return "reset", rv
     return "unclassified", rv
-
-
-def subst_params(e, args):
-    """rewrite an expression over a callee's parameters into the caller's terms"""
-    if not isinstance(e, tuple) or not e:
-        return e
-    if e[0] == "param":
-        i = e[1] - 1
-        return args[i] if 0 <= i < len(args) else ("unknown", "param")
-    if e[0] == "field":
-        from core import project
-        return project(subst_params(e[1], args), e[2])
-    if e[0] == "variant":
-        from core import downcast
-        return downcast(subst_params(e[1], args), e[2])
-    return tuple(subst_params(x, args) if isinstance(x, tuple) else x for x in e)
 
 
 def abstract_args(W, args):
